@@ -1,19 +1,4 @@
-(* driver — runs the extracted models on the same case files the Rust harness reads.
-   usage: driver <mode>    stdin: id<TAB>sexp...    stdout: id<TAB>result *)
-open Model
-open Sexp
-
-let rec pos_of_int (n : int) : positive =
-  if n = 1 then XH else if n land 1 = 0 then XO (pos_of_int (n lsr 1)) else XI (pos_of_int (n lsr 1))
-let n_of_int (n : int) : n = if n = 0 then N0 else Npos (pos_of_int n)
-let rec int_of_pos (p : positive) : int =
-  match p with XH -> 1 | XO q -> 2 * int_of_pos q | XI q -> 2 * int_of_pos q + 1
-let int_of_n (x : n) : int = match x with N0 -> 0 | Npos p -> int_of_pos p
-
-let str_of (x : Sexp.t) : n list = List.map (fun c -> n_of_int (num c)) (list x)
-let show_str (s : n list) : Sexp.t = L (List.map (fun c -> N (int_of_n c)) s)
-let bool_s b = if b then "1" else "0"
-
+(* d_serial.ml — driver for Model/Serial.v (C17).  Built as: sexp.ml m_serial.ml (open M_serial + prelude.ml + this file) *)
 (* ---------------- C17 ---------------- *)
 let range_of x = match list x with
   | [Sym "s"; a] -> Single (n_of_int (num a))
@@ -63,21 +48,4 @@ let ws_table () =
     if not (c >= 0xD800 && c <= 0xDFFF) && is_ws (n_of_int c) then Printf.printf "%d\n" c
   done
 
-let () =
-  let mode = if Array.length Sys.argv > 1 then Sys.argv.(1) else "" in
-  let f = match mode with
-    | "c17-rt" -> c17_rt
-    | "c17-de" -> c17_de
-    | "ws-table" -> ws_table (); exit 0
-    | _ -> prerr_endline ("unknown mode " ^ mode); exit 2 in
-  (try
-     while true do
-       let line = input_line stdin in
-       match String.index_opt line '\t' with
-       | None -> ()
-       | Some i ->
-           let id = String.sub line 0 i and body = String.sub line (i + 1) (String.length line - i - 1) in
-           let r = try f body with e -> "driver-exception " ^ Printexc.to_string e in
-           print_string id; print_char '\t'; print_endline r
-     done
-   with End_of_file -> ())
+let () = run_driver ["c17-rt", c17_rt; "c17-de", c17_de] ["ws-table", ws_table]
